@@ -132,7 +132,22 @@ def ir_calls(ix, fn, irfile):
     toks = []
     body = fn["body"] or []
     pos = 0
-    struct_by_name = {st["name"]: i for i, st in enumerate(u.structs)}
+    # qualifier used in the generated file -> logical package
+    alias = {}
+    for imp in irfile.get("imports") or []:
+        ws = imp.split(" ")
+        path = ws[-1].strip('"')
+        for lp in ix.prog.pkgs:
+            if ix.prog.path(lp) == path:
+                alias[ws[0] if len(ws) == 2 else ix.prog.pkgmap[lp]["name"]] = lp
+
+    def struct_of(text):
+        q, _, nm = text.rpartition(".")
+        lp = alias.get(q) if q else u.inj["pkg"]
+        for i, st in enumerate(u.structs):
+            if st["name"] == nm and st["pkg"] == lp:
+                return i
+        return None
     for k, st in enumerate(body):
         kind = st["kind"]
         if kind in ("iferr", "return"):
@@ -157,7 +172,7 @@ def ir_calls(ix, fn, irfile):
             flags = [int(bool(st.get("ellipsis"))), int(has_cl), int(has_err), 0]
             tk = "func"
         elif kind == "struct":
-            i = struct_by_name.get(strip_q(st["type"]))
+            i = struct_of(st["type"])
             it = next((x for x in u.items if x["kind"] == "struct" and x["struct"] == i), None)
             if it is None:
                 probs.append("struct literal of unknown provider " + st["type"])
